@@ -31,7 +31,7 @@ var c20Types = []string{"ollama", "lm-studio", "vllm", "sglang", "llamacpp", "le
 // mutate applies one byte-level mutation to a well-formed payload.
 func c20Mutate(r R, base []byte) ([]byte, string) {
 	b := append([]byte(nil), base...)
-	switch k := r.Pick(16); k {
+	switch k := r.Pick(18); k {
 	case 0:
 		if len(b) > 1 {
 			return b[:r.Pick(len(b))], "truncate"
@@ -89,6 +89,56 @@ func c20Mutate(r R, base []byte) ([]byte, string) {
 		}
 		sb.WriteString(`],"data":[{"id":"z"}]}`)
 		return []byte(sb.String()), "many-duplicates"
+	case 15, 16:
+		// well-formed JSON of the right shape whose *field values* are hostile: empty, one
+		// character, no separator, very long, non-sha digests, negative and huge numbers
+		var doc any
+		if json.Unmarshal(b, &doc) != nil {
+			return b, "same"
+		}
+		strs := []string{"", "a", "ab", "sha256:", "sha256:12", ":", "::", "/", "x:y:z", "\u00e9\u4e16", strings.Repeat("L", 5000), "null", "0", " ", "..", "*"}
+		nums := []any{-1, 0, 1e18, 1.5, -9.2e18}
+		var walk func(v any, key string) any
+		walk = func(v any, key string) any {
+			switch t := v.(type) {
+			case map[string]any:
+				keys := make([]string, 0, len(t))
+				for k := range t {
+					keys = append(keys, k)
+				}
+				sort.Strings(keys) // map order must not steer the PRNG
+				for _, k := range keys {
+					t[k] = walk(t[k], k)
+				}
+				return t
+			case []any:
+				for i := range t {
+					t[i] = walk(t[i], key)
+				}
+				return t
+			case string:
+				// names mostly stay, so that the entry still collides with what other endpoints list
+				ch := 500
+				if key == "name" || key == "model" || key == "id" {
+					ch = 150
+				}
+				if r.Chance(ch) {
+					return pickS(r, strs)
+				}
+				return t
+			case float64:
+				if r.Chance(400) {
+					return pickS(r, nums)
+				}
+				return t
+			}
+			return v
+		}
+		out, err := json.Marshal(walk(doc, ""))
+		if err != nil {
+			return b, "same"
+		}
+		return out, "hostile-fields"
 	default:
 		return b, "same"
 	}
@@ -123,6 +173,15 @@ func (propC20) Gen(seed uint64, tier string, idx int) *Plan {
 	b2.CheckInterval, b2.CheckTimeout = 5*time.Second, time.Second
 	b2.Models = []string{"only-b2"}
 	b2.Default = Resp{Kind: "llm", Status: 200}
+	if r.Chance(600) {
+		// the same model on both endpoints, with different digests where the provider reports one:
+		// whatever the poisoned endpoint says about it meets the healthy endpoint's entry in the unifier
+		if r.Chance(500) {
+			b2.Type = typ
+		}
+		b1.Models = append(b1.Models, "shared@sha256:1111111111111111111111111111111111111111111111111111111111111111")
+		b2.Models = append(b2.Models, "shared@sha256:2222222222222222222222222222222222222222222222222222222222222222")
+	}
 
 	// poisoned listing rounds (discovery at 0, 10, 20, .. s)
 	clean := ListingBody(typ, b1.Models)
@@ -344,7 +403,12 @@ func (propC20) Check(r *Run) []Violation {
 	// failed updates leave the previous attribution intact
 	if r.Plan.ExtraBool("all_unparseable") && r.EndReason == "done" {
 		got, _ := r.Extra["b1_models"].([]string)
-		want := []string{"clean-a", "clean-b", "only-b1"}
+		var want []string
+		for _, m := range r.Plan.Endpoints[0].Models {
+			n, _ := splitDigest(m)
+			want = append(want, n)
+		}
+		sort.Strings(want)
 		if strings.Join(got, ",") != strings.Join(want, ",") {
 			add("C20/failed-listing-changed-catalogue", "every poisoned listing was unparseable or an error, yet the endpoint's models went from %v to %v", want, got)
 		}
